@@ -198,6 +198,23 @@ def _pool_job(i):
     return i, (ob.result, ob.backend, ob.ms, ob.reason, extra)
 
 
+def cover_hyps(results, extra=()):
+    """Hypotheses for a reachability cover of an analysed function: those of the first explored path that are satisfiable
+    (paths are explored in source order, so a harmless reordering of branches must not turn the cover of a *feasible*
+    function into a vacuity alarm).  Falls back to the first path's, so that a function none of whose paths is
+    satisfiable still fails its cover."""
+    for res in results:
+        hy = list(res[0].hyps) + list(extra)
+        c = Ob("cover-probe", "cover", "probe", hy, z3.BoolVal(True), expect="sat")
+        try:
+            discharge(c)
+        except Exception:
+            continue
+        if c.result == "sat":
+            return hy
+    return list(results[0][0].hyps) + list(extra)
+
+
 CURRENT = None
 LAST_FUNC = None        # the function most recently handed to Interp.run_function
 
@@ -408,6 +425,7 @@ class Check:
                           and not k2.split(" :: ", 1)[1].startswith(("loop-init:", "loop-preserve:"))]
                 if others and all(st.get(k2) == "discharged" for k2 in others):
                     st.pop(k)
+                    self.__dict__.setdefault("waived", set()).add(k)
                     self.obs = [o for o in self.obs if not (o.key == k and o.path_id == "not-generated")]
                     self.notes.append(f"{k}: the loop is no longer in the source; the function's other clauses are all discharged")
         for k, v in st.items():
@@ -447,7 +465,7 @@ class Check:
             self.errors.append("no obligations generated")
         if ledger is not None and not update and self.aborted_on is None:
             for k, want in ledger["clauses"].items():
-                if k not in st:
+                if k not in st and k not in self.__dict__.get("waived", ()):
                     self.errors.append(f"ledger clause not generated (function not analysed at all): {k}")
         if self.aborted_on is not None:
             self.notes.append(f"run cut short: {self.aborted_on} is not defined in the current source; obligations of "
